@@ -20,7 +20,7 @@ RULE = ('random inputs over the whole documented range (altitude 0-25 km dense a
         'fuel-flow PMvol, SCOPE11 compared with independent scalar implementations (rel '
         '1e-9); metamorphic: finite, >= 0, linear scaling in certification EIs, sulfur atom '
         'conservation, ISA inverse/continuity/monotonicity/25 km refusal, exactly one '
-        'monotone thrust category, MEEM finite/non-negative/linear; class = function x '
+        'monotone thrust category, MEEM finite/non-negative/linear; array calls (any shape, mixed layers, integer altitudes, per-point atmosphere) equal element-wise scalar references, inputs are left unmodified, results do not depend on position in the array; class = function x '
         'branch reached (branch taken by the reference)')
 ASSUMPTIONS = [
     'calibration fuel flows are either exactly equal or >= 2 % apart (nearly equal flows '
@@ -56,7 +56,9 @@ def required(tier):
           'scope11:unknown-type', 'meem:given-matrices', 'meem:from-smoke-number',
           'meem:no-smoke-number', 'meem:scaling', 'thrustcat:monotone',
           'hcco:scaling', 'hcco:low-thrust', 'hcco:non-positive-flow',
-          'hcco:equal-calibration-flows']
+          'hcco:equal-calibration-flows', 'isa:array:mixed-layers', 'isa:array:integer-altitudes',
+          'nox:per-point-atmosphere', 'nox:permutation', 'hcco:per-point-atmosphere',
+          'hcco:permutation', 'ffm2:array']
     cl += [f'hcco:{b}' for b in HCCO_BRANCHES]
     return {'classes': cl, 'evaluations': 20000}
 
@@ -170,6 +172,46 @@ def run_shard(spec, rec):
                         rec.ev()
                 rec.cls('isa:refused-above-25km')
 
+            # ---------------- ISA on arrays (mixed layers, any shape), inputs untouched -----
+            if k % 5 == 0:
+                shp = rng.choice([(7,), (1,), (2, 3), (0,), (4, 1)])
+                nel = int(np.prod(shp))
+                hv = np.array([gen_alt(rng) for _ in range(nel)], dtype=float).reshape(shp)
+                if nel >= 2 and rng.random() < 0.5:
+                    hv.flat[0], hv.flat[-1] = 2000.0, 18000.0      # both layers in one call
+                if rng.random() < 0.3:
+                    hv = np.asfortranarray(hv)
+                if rng.random() < 0.25 and nel:
+                    hv = np.floor(hv).astype(rng.choice([np.int64, np.int32, np.float32]))
+                h0 = hv.copy()
+                for fn, ref, nm in ((sa.temperature_at_altitude_isa_bada4, isa.temperature, 'T'),
+                                    (sa.pressure_at_altitude_isa_bada4, isa.pressure, 'p')):
+                    gv = np.asarray(fn(hv))
+                    check(gv.shape == hv.shape, 'ISA function changed the shape of its input',
+                          {'function': fn.__name__, 'in': list(hv.shape), 'out': list(gv.shape)})
+                    tol = 1e-9 if hv.dtype != np.float32 else 1e-5
+                    bad = [(float(a), float(g), ref(float(a)))
+                           for a, g in zip(hv.flat, gv.flat) if not rel_close(float(g), ref(float(a)), tol)]
+                    check(not bad, f'ISA {nm} on an array differs from the standard element-wise',
+                          {'function': fn.__name__, 'dtype': str(hv.dtype), 'bad': bad[:4]})
+                    check(np.array_equal(hv, h0) and hv.dtype == h0.dtype,
+                          'an ISA function modified its input array', {'function': fn.__name__})
+                if nel:
+                    pv = np.asarray(sa.pressure_at_altitude_isa_bada4(hv.astype(float)))
+                    p0 = pv.copy()
+                    hb_v = np.asarray(sa.altitude_from_pressure_isa_bada4(pv))
+                    check(hb_v.shape == pv.shape and np.allclose(hb_v, hv.astype(float),
+                                                                 rtol=1e-9, atol=1e-6),
+                          'altitude_from_pressure(pressure(h)) != h on an array',
+                          {'h': hv.astype(float).ravel().tolist()[:6],
+                           'back': hb_v.ravel().tolist()[:6]})
+                    check(np.array_equal(pv, p0), 'an ISA function modified its input array',
+                          {'function': 'altitude_from_pressure_isa_bada4'})
+                rec.cls('isa:array:mixed-layers' if nel >= 2 and hv.min() <= 11000 < hv.max()
+                        else 'isa:array:other')
+                if hv.dtype.kind == 'i':
+                    rec.cls('isa:array:integer-altitudes')
+
             # ---------------- FFM2 eq. 40 ----------------------------------------------
             ff_cal, flow_kind = gen_flows(rng)
             to_flow = max(ff_cal.values())
@@ -187,6 +229,25 @@ def run_shard(spec, rec):
                   {'ff': ff, 'P': P, 'T': T, 'mach': mach, 'n_eng': n_eng, 'got': got,
                    'expected': exp})
             rec.cls('ffm2')
+            if k % 3 == 0:                       # several points in one call, inputs untouched
+                nn = rng.randint(2, 6)
+                hs = [gen_alt(rng) for _ in range(nn)]
+                fv = np.array([rng.choice([0.0, rng.uniform(0, 3 * to_flow)]) for _ in hs])
+                Tv = np.array([isa.temperature(x) for x in hs])
+                Pv = np.array([isa.pressure(x) for x in hs])
+                Mv = np.array([rng.choice([0.0, rng.uniform(0, 0.95)]) for _ in hs])
+                keep = [x.copy() for x in (fv, Pv, Tv, Mv)]
+                gv = np.asarray(get_SLS_equivalent_fuel_flow(fv, Pv, Tv, Mv, n_eng=n_eng))
+                ev = [R.ffm2_sls_fuel_flow(float(a), float(b), float(c), float(d), n_eng=n_eng)
+                      for a, b, c, d in zip(fv, Pv, Tv, Mv)]
+                check(gv.shape == fv.shape and all(rel_close(float(a), b) or float(a) == b == 0.0
+                                                   for a, b in zip(gv, ev)),
+                      'SLS-equivalent fuel flow differs from FFM2 eq. 40',
+                      {'ff': fv.tolist(), 'P': Pv.tolist(), 'T': Tv.tolist(),
+                       'mach': Mv.tolist(), 'n_eng': n_eng, 'got': gv.tolist(), 'expected': ev})
+                check(all(np.array_equal(a, b) for a, b in zip((fv, Pv, Tv, Mv), keep)),
+                      'get_SLS_equivalent_fuel_flow modified one of its inputs', {})
+                rec.cls('ffm2:array')
 
             # ---------------- BFFM2 NOx ----------------------------------------------------
             ei = gen_eis(rng)
@@ -195,15 +256,38 @@ def run_shard(spec, rec):
             if rng.random() < 0.3:
                 pts.append(rng.choice([0.0, -0.3]))
             arr = np.array(pts)
-            res = BFFM2_EINOx(arr, tmv(ei), tmv(ff_cal), np.full(len(pts), T),
-                              np.full(len(pts), P))
+            if rng.random() < 0.5:           # every point in its own atmosphere
+                hs = [gen_alt(rng) for _ in pts]
+                Tn = np.array([isa.temperature(x) for x in hs])
+                Pn = np.array([isa.pressure(x) for x in hs])
+                rec.cls('nox:per-point-atmosphere')
+            else:
+                Tn, Pn = np.full(len(pts), T), np.full(len(pts), P)
+            keep = (arr.copy(), Tn.copy(), Pn.copy())
+            cal_in, ei_in = tmv(ff_cal), tmv(ei)
+            res = BFFM2_EINOx(arr, ei_in, cal_in, Tn, Pn)
+            check(np.array_equal(arr, keep[0]) and np.array_equal(Tn, keep[1])
+                  and np.array_equal(Pn, keep[2])
+                  and all(float(cal_in[TM[m]]) == float(ff_cal[m])
+                          and float(ei_in[TM[m]]) == float(ei[m]) for m in MODES),
+                  'BFFM2_EINOx modified one of its inputs', {'pts': pts})
             res_k = BFFM2_EINOx(arr, tmv({m: 3.0 * v for m, v in ei.items()}), tmv(ff_cal),
-                                np.full(len(pts), T), np.full(len(pts), P))
+                                Tn, Pn)
+            perm = list(range(len(pts)))
+            rng.shuffle(perm)
+            res_p = BFFM2_EINOx(arr[perm], tmv(ei), tmv(ff_cal), Tn[perm], Pn[perm])
+            check(np.array_equal(np.asarray(res_p.NOxEI), np.asarray(res.NOxEI)[perm])
+                  or np.allclose(np.asarray(res_p.NOxEI), np.asarray(res.NOxEI)[perm],
+                                 rtol=1e-12, atol=0),
+                  'BFFM2 NOx of a point depends on its position in the input array',
+                  {'pts': pts, 'perm': perm})
+            rec.cls('nox:permutation')
             for i, f in enumerate(pts):
-                e_nox, e_no, e_no2, e_hono, cat = R.bffm2_nox(f, ei, ff_cal, T, P)
+                T_i, P_i = float(Tn[i]), float(Pn[i])
+                e_nox, e_no, e_no2, e_hono, cat = R.bffm2_nox(f, ei, ff_cal, T_i, P_i)
                 g = (float(res.NOxEI[i]), float(res.NOEI[i]), float(res.NO2EI[i]),
                      float(res.HONOEI[i]))
-                det = {'ff': f, 'ff_cal': ff_cal, 'ei_cal': ei, 'T': T, 'P': P, 'got': g,
+                det = {'ff': f, 'ff_cal': ff_cal, 'ei_cal': ei, 'T': T_i, 'P': P_i, 'got': g,
                        'expected': (e_nox, e_no, e_no2, e_hono), 'category': cat,
                        'flows': flow_kind}
                 check(all(rel_close(a, b) for a, b in zip(g, (e_nox, e_no, e_no2, e_hono))),
@@ -252,13 +336,35 @@ def run_shard(spec, rec):
             if rng.random() < 0.3:
                 ffs += [0.0, -0.2]
             arr = np.array(ffs)
-            out = EI_HCCO(arr, tmv(eih), tmv(ff_cal), np.full(len(ffs), T), np.full(len(ffs), P))
+            if rng.random() < 0.5:
+                hs = [gen_alt(rng) for _ in ffs]
+                Th = np.array([isa.temperature(x) for x in hs])
+                Ph = np.array([isa.pressure(x) for x in hs])
+                rec.cls('hcco:per-point-atmosphere')
+            else:
+                Th, Ph = np.full(len(ffs), T), np.full(len(ffs), P)
+            keep = (arr.copy(), Th.copy(), Ph.copy())
+            cal_in, ei_in = tmv(ff_cal), tmv(eih)
+            out = EI_HCCO(arr, ei_in, cal_in, Th, Ph)
+            check(np.array_equal(arr, keep[0]) and np.array_equal(Th, keep[1])
+                  and np.array_equal(Ph, keep[2])
+                  and all(float(cal_in[TM[m]]) == float(ff_cal[m])
+                          and float(ei_in[TM[m]]) == float(eih[m]) for m in MODES),
+                  'EI_HCCO modified one of its inputs', {'ffs': ffs})
             out_k = EI_HCCO(arr, tmv({m: 2.5 * v for m, v in eih.items()}), tmv(ff_cal),
-                            np.full(len(ffs), T), np.full(len(ffs), P))
+                            Th, Ph)
+            perm = list(range(len(ffs)))
+            rng.shuffle(perm)
+            out_p = np.asarray(EI_HCCO(arr[perm], tmv(eih), tmv(ff_cal), Th[perm], Ph[perm]))
+            check(np.allclose(out_p, np.asarray(out)[perm], rtol=1e-12, atol=0),
+                  'HC/CO EI of a point depends on its position in the input array',
+                  {'ffs': ffs, 'perm': perm})
+            rec.cls('hcco:permutation')
             for i, f in enumerate(ffs):
-                e, br = R.hcco(f, eih, ff_cal, T, P)
+                T_i, P_i = float(Th[i]), float(Ph[i])
+                e, br = R.hcco(f, eih, ff_cal, T_i, P_i)
                 g = float(out[i])
-                det = {'ff': f, 'ff_cal': ff_cal, 'ei_cal': eih, 'T': T, 'P': P, 'got': g,
+                det = {'ff': f, 'ff_cal': ff_cal, 'ei_cal': eih, 'T': T_i, 'P': P_i, 'got': g,
                        'expected': e, 'branch': br, 'flows': flow_kind}
                 check(rel_close(g, e) or (g == 0.0 and abs(e) < 1e-300),
                       'HC/CO EI differs from the BFFM2 bilinear fit with its documented rules',
@@ -299,7 +405,10 @@ def run_shard(spec, rec):
             th = np.array([rng.uniform(0, 110), rng.choice([7.0, 30.0, 85.0, 100.0]),
                            rng.uniform(7, 100), rng.uniform(-5, 7), rng.uniform(100, 130)])
             hc = np.array([10 ** rng.uniform(-3, 2) for _ in th])
+            keep = (th.copy(), hc.copy())
             pm, oc = EI_PMvol_FOA3(th, hc)
+            check(np.array_equal(th, keep[0]) and np.array_equal(hc, keep[1]),
+                  'EI_PMvol_FOA3 modified one of its inputs', {'thrust': keep[0].tolist()})
             pm3, _ = EI_PMvol_FOA3(th, 3.0 * hc)
             for i in range(len(th)):
                 e = R.foa3(float(th[i]), float(hc[i]))
